@@ -24,7 +24,8 @@ def run(ctx):
     rng = e.rng
 
     runs = [("ImageCopyMC", "C14_mc_quick.cfg", "img / empty / schema1 / inline: every pre-existing subset x 6 pairings x mount on/off x 3 tag states, reduced", {}),
-            ("ImageCopyMC", "C14_mc_quick2.cfg", "dup / idx2 / docker: corner targets x 3 registry pairings x mount on/off x 3 tag states, reduced", {})]
+            ("ImageCopyMC", "C14_mc_quick2.cfg", "dup / idx2 / docker: corner targets x 3 registry pairings x mount on/off x 3 tag states, reduced", {}),
+            ("ImageCopyMC", "C14_mc_opts.cfg", "idx2 / dtag: referrers / digest tags / both / platforms / fast-check x corner targets (incl. the identical image) x 2 tag states, reduced", {})]
     if th:
         runs += [("ImageCopyMC", "C14_mc_t3.cfg", "img / schema1, every pre-existing subset, mount on/off, 1 fault (transient faults absorbed), full interleaving", {"timeout": 3000}),
                  ("ImageCopyMC", "C14_mc_t1.cfg", "6 shapes incl. idx2 / docker: every pre-existing subset x 6 pairings x mount on/off x 3 tag states, reduced", {"timeout": 3000}),
@@ -37,7 +38,7 @@ def run(ctx):
     mx2 = e.matrix(e.shapes, cc.PAIRS, 4, ["random", "ungated"], "min-opts", opt_filter=lambda o: bool(o))
     keyf = [lambda s: (s["shape"], s["pair"], s["mount"]), lambda s: (s["shape"], s["tag0"], len(s["init"])),
             lambda s: (s["shape"], cc.optsig(s)), lambda s: (s["pair"], s["mode"], s["conc"])]
-    mx = cc.cover_sample(rng, mx, 16000 if th else 1800, keyf)
+    mx = cc.cover_sample(rng, mx, 16000 if th else 1650, keyf)
     mx2 = cc.cover_sample(rng, mx2, 3000 if th else 400, keyf)
     # the corner cases the statement names: retag, identical image, everything mountable
     extra = []
@@ -60,11 +61,25 @@ def run(ctx):
             for init in ([blobs, blobs[::2]] if th else [rng.choice([blobs, blobs[::2], blobs[1::2] or blobs])]):
                 base.append(e.scn(sh, pr, "tbase", init=sorted(init), mode="fifo", mount=rng.choice([0, 1]),
                                   tag0=rng.choice(["none", "stale"])))
+    # (round 5) ... nor may they turn a mount the registry grants into a transfer, or make a copy onto the identical
+    # image write: same registry with every mount granted (target empty / holding some blobs), and the repeat copy
+    for sh in e.shapes:
+        blobs = [n["name"] for n in e.cat[sh]["nodes"] if n["kind"] == "blob"]
+        for init in ([[], blobs[::2]] if th else [rng.choice([[], [], blobs[1::2]])]):
+            base.append(e.scn(sh, "samereg", "tbase-mount", init=sorted(init), mode="fifo", mount=1, mirror="", prior="",
+                              tag0=rng.choice(["none", "stale"]), conc=rng.choice([1, 3, 16])))
+        if th or sh in cc.INDEX_SHAPES + ["img", "art"]:
+            opts = rng.choice([{}, {"referrers": 1}, {"dtags": 1}])
+            base.append(e.scn(sh, rng.choice(["tworeg", "samereg", "dir2reg"]), "tbase-repeat", opts=opts, prior="recopy-other", wipe="",
+                              mode="fifo", mirror="", cache=0))
     bres = e.run(base, "transient baselines")
-    tr = e.sweep(bres, lambda p: cc.RETRYABLE, "transient", cancel=False, death=False)
-    tr = cc.cover_sample(rng, tr, 9000 if th else 700,
+    tr = e.sweep(bres, lambda p: cc.RETRYABLE_ALL if p["class"] == "mount_post" else [rng.choice(cc.RETRYABLE), rng.choice(cc.RETRYABLE_ALL)],
+                 "transient", cancel=False, death=False)
+    tr = cc.cover_sample(rng, tr, 9000 if th else 800,
                          [lambda s: (s["shape"], s["pair"], s["faults"][0]["class"]), lambda s: (s["faults"][0]["class"], s["faults"][0]["kind"]),
-                          lambda s: (s["shape"], s["faults"][0]["class"] == "blob_head", s["faults"][0]["n"])])
+                          lambda s: (s["shape"], s["faults"][0]["class"] == "blob_head", s["faults"][0]["n"]),
+                          lambda s: (s["shape"], s["faults"][0]["class"] == "mount_post", s["faults"][0]["n"]),
+                          lambda s: (s["origin"], s["shape"] in cc.INDEX_SHAPES, s["faults"][0]["kind"])])
     # a registry that decides mounts per request: declines the k-th mount it sees, or the mount of one blob,
     # and grants the others - every mount it would grant has to be asked for
     mp = []
@@ -77,7 +92,9 @@ def run(ctx):
         for b in (blobs if th else rng.sample(blobs, min(2, len(blobs)))):
             mp.append(e.scn(sh, "samereg", "mountpolicy", mount=1, mount_decline_n=[b], conc=rng.choice([1, 3, 16]),
                             mode=rng.choice(["random", "fifo", "ungated"])))
-    res = bres + e.run(scripts + mx + mx2 + extra + tr + mp + e.round4("round4"), "minimal")
+    # (round 5) the periodic re-sync: every shape x option set copied a second time onto the result of the first
+    rp = e.repeats("repeat") + (e.repeats("repeat") + e.repeats("repeat") if th else [])
+    res = bres + e.run(scripts + mx + mx2 + extra + tr + mp + rp + e.round4("round4"), "minimal")
 
     acc, rej = e.validate(res, "C14", max_reports=40)
     e.check_stalls()
